@@ -45,7 +45,6 @@ package snowflake_proxy
 //@ ghost var answerFailed bool
 //@ func (sf *SnowflakeProxy) runSession(sid string)
 //@   props C16, C06
-//@   flag nosafety
 //@   requires sf != nil
 //@   at entry ghost slot = 1
 //@   at entry ghost hostOK = false
@@ -85,7 +84,6 @@ package snowflake_proxy
 //
 //@ func (d dataChannelHandlerWithRelayURL) datachannelHandler(conn *webRTCConn, remoteAddr net.Addr)
 //@   props C16, C06
-//@   flag nosafety
 //@   requires d.sf != nil
 //@   at call datachannelHandler assert {passes-the-stored-url} arg3 == d.RelayURL && arg0 == d.sf
 //
@@ -102,7 +100,6 @@ package snowflake_proxy
 // result to sendAnswer, which dereferences it, after checking the error only.
 //@ func (sf *SnowflakeProxy) makePeerConnectionFromOffer(sdp *webrtc.SessionDescription, config webrtc.Configuration, dataChan chan struct{}, claim *sync.Once, handler func(conn *webRTCConn, remoteAddr net.Addr)) (r *webrtc.PeerConnection, err error)
 //@   props C13, C16
-//@   flag nosafety
 //@   requires sdp != nil
 //@   ensures {value-or-error} (err == nil) <==> (r != nil)
 //
@@ -139,16 +136,13 @@ package snowflake_proxy
 //
 //@ func (sf *SnowflakeProxy) makeNewPeerConnection(config webrtc.Configuration, dataChan chan struct{}) (r *webrtc.PeerConnection, err error)
 //@   props C13
-//@   flag nosafety
 //@   ensures {value-or-error} (err == nil) <==> (r != nil)
 //
 //@ func getCurrentNATType() (r string)
 //@   props C13
-//@   flag nosafety
 //
 //@ func (sf *SnowflakeProxy) checkNATType(config webrtc.Configuration, probeURL string)
 //@   props C13
-//@   flag nosafety safety-keep=nil
 //@   requires sf != nil
 //@   assumes urlParses(probeURL)
 //
@@ -167,13 +161,11 @@ package snowflake_proxy
 // that returns without doing so leaves the handler, and the slot, parked forever.
 //@ func copyLoop$1(dst io.ReadWriteCloser, src io.ReadWriteCloser)
 //@   props C16
-//@   flag nosafety
 //@   assumes done != nil && (oncedone(&once) <==> closed(done))
 //@   ensures {a-copier-that-ends-ends-the-relay} closed(done)
 //
 //@ func copyLoop(c1 io.ReadWriteCloser, c2 io.ReadWriteCloser, shutdown chan struct{})
 //@   props C16
-//@   flag nosafety
 //@   requires c1 != nil && c2 != nil
 //@   ensures {both-directions-started} spawns(copyer) == 2
 //@   ensures {both-ends-closed} calls(Close) == 2
@@ -195,7 +187,6 @@ package snowflake_proxy
 //@ ghost var strippedSDP string
 //@ func (s *SignalingServer) sendAnswer(sid string, pc *webrtc.PeerConnection) (err error)
 //@   props C08
-//@   flag nosafety
 //@   assumes s != nil && pc != nil
 //@   after call StripLocalAddresses ghost strippedSDP = ret0
 //@   at call SerializeSessionDescription assert {sends-the-stripped-text} !s.keepLocalAddresses ==> calls(StripLocalAddresses) == 1 && arg0.SDP == strippedSDP
